@@ -400,7 +400,33 @@ def gen_program(rng, missing_names=None, max_stmts=8, allow_nested_imports=True)
             meth_env = dict(uenv)
             lines.append("class %s:\n    a = %s\n    def m(self):\n        return %s" % (cname, attr, gen_expr(meth_env, rng)))
             funcs.append(cname + "().m")
-        elif r < 0.95 and not have_all:
+        elif r < 0.93:
+            # newer / rarer statement forms around reads of imported names
+            e1, e2 = gen_expr(uenv, rng), gen_expr(uenv, rng)
+            k = rng.random()
+            if k < 0.2:
+                lines.append("match %s:\n    case 1 | 2:\n        print(%s)\n    case [a0, *b0] if a0:\n        print(a0)\n    case _:\n        print(%s)" % (rng.choice(["1", "3", "[1, 2]"]), e1, e2))
+            elif k < 0.35:
+                lines.append("if (w0 := %s) is not None:\n    print(w0, %s)" % (e1, e2))
+                env["w0"] = "val"
+            elif k < 0.5:
+                lines.append("try:\n    print(%s)\nexcept* ValueError as eg0:\n    print(%s)" % (e1, e2))
+            elif k < 0.62:
+                lines.append("for i0 in (1, 2):\n    print(i0, %s)\nelse:\n    print(%s)" % (e1, e2))
+                env["i0"] = "val"
+            elif k < 0.74:
+                fname = "fn%d" % len(funcs)
+                lines.append("@(lambda fn: fn)\ndef %s[T](a: T = %s, /, *ar, k0=%s, **kw) -> 'T':\n    return a" % (fname, rng.choice(_value_exprs(uenv, rng)), rng.choice(_value_exprs(uenv, rng))))
+                funcs.append(fname)
+                env[fname] = "localfn"
+            elif k < 0.86:
+                fname = "fn%d" % len(funcs)
+                lines.append("def %s():\n    acc = []\n    def inner():\n        nonlocal acc\n        acc.append(%s)\n        return acc\n    return inner()" % (fname, e1))
+                funcs.append(fname)
+                env[fname] = "localfn"
+            else:
+                lines.append("async def co%d():\n    async with %s as cm0:\n        return [j async for j in %s]" % (len(lines), e1, e2))
+        elif r < 0.96 and not have_all:
             names = [k for k, v in env.items() if v in ("fn", "int", "cls") or v.startswith("mod:")]
             if names:
                 lines.append("__all__ = %r" % (rng.sample(names, min(len(names), rng.randint(1, 2))),))
